@@ -118,6 +118,34 @@ def known_sync():
     return len(ids)
 
 
+def design_binding(wd):
+    """Binding demonstration for the two design-model trace specifications: an intact recorded result is accepted, a corrupted one
+    (one colour flipped / one merge invented) is rejected with the expected clause."""
+    import colour
+    import cse
+    from common import snapshot_tla
+    snapshot_tla(wd)
+    n = 0
+    edges = [{"src": 1, "snk": 1, "sig": 1, "merge": 0}, {"src": 2, "snk": 1, "sig": 1, "merge": 0}]
+    good = {"edges": edges, "locked": [], "assign": [{"n": [1, 1], "c": "red"}, {"n": [2, 1], "c": "green"}], "bip": True, "conf": []}
+    bad = dict(good, assign=[{"n": [1, 1], "c": "red"}, {"n": [2, 1], "c": "red"}])
+    fails, div, judged, states = colour.judge(wd, [{"id": "good", "call": good}, {"id": "bad", "call": bad}], tag="selfcol")
+    if [f[0] for f in fails if f[0] == "good"] or not any(f[0] == "bad" and f[1] == "COL_sound" for f in fails):
+        raise Machinery("TraceColour binding demonstration failed: %s" % fails)
+    n += 1
+    leaf = {"kind": "leaf"}
+    one = {"k": "int", "v": 1}
+    a = {"kind": "decider", "conds": [{"cmp": ">", "a": {"k": "sig", "src": 1, "t": "A"}, "b": one, "ct": "or"}], "ov": one, "copy": False, "out": "X"}
+    b = dict(a, copy=True)
+    ops = [leaf, leaf, a, b]
+    good = {"ops": ops, "repl": [], "after": ops}
+    bad = {"ops": ops, "repl": [{"a": 4, "b": 3}], "after": [leaf, leaf, a, {"kind": "leaf", "gone": True}]}
+    fails, div, judged, states = cse.judge(wd, [{"id": "good", "call": good}, {"id": "bad", "call": bad}], tag="selfcse")
+    if [f[0] for f in fails if f[0] == "good"] or not any(f[0] == "bad" and f[1] == "CSE_sound" for f in fails):
+        raise Machinery("TraceCse binding demonstration failed: %s" % fails)
+    return n + 1
+
+
 def run():
     wd = workdir("setup")
     try:
@@ -136,6 +164,8 @@ def run():
         import binding
         n = binding.run(wd)
         print("setup: binding demonstration: intact record accepted, %d corruptions rejected" % n)
+        n = design_binding(wd)
+        print("setup: design-model bindings: %d trace specifications accept the intact result and reject the corrupted one" % n)
         n = known_sync()
         print("setup: %d open known findings in sync" % n)
     except Machinery as ex:
